@@ -9,7 +9,7 @@ CXX    := g++
 GUARD  := -DADAPTAGRAMS_VERIF
 LIBFLAGS := -std=gnu++11 -g1 -DUSE_ASSERT_EXCEPTIONS $(GUARD) -I$(REPO)/cola -w
 SIMFLAGS := -std=gnu++17 -g1 -DUSE_ASSERT_EXCEPTIONS $(GUARD) -I$(REPO)/cola -Isim -fno-access-control -Wall -Wno-unused-function -Wno-unused-variable -Wno-sign-compare -Wno-deprecated-declarations -Wno-unused-but-set-variable
-OPT_plain := -O1
+OPT_plain := -O1 -fno-pie -no-pie
 OPT_san   := -O1 -fsanitize=address,undefined -fsanitize-recover=undefined -fno-omit-frame-pointer -DSIM_SAN
 WRAPS  := -Wl,--wrap=clock -Wl,--wrap=fopen -Wl,--wrap=time
 
